@@ -244,7 +244,18 @@ func checkPresence(c presCase) error {
 	return nil
 }
 
-var types, rich = corpus.Modern(), corpus.ModernRich(20)
+var types, rich = noConstrained(corpus.Modern()), noConstrained(corpus.ModernRich(20))
+
+// well-known types whose JSON form accepts only part of their values cannot serve as the top-level
+// type of the three-codec round trip (their fields are skipped inside other messages as well)
+func noConstrained(in []string) (out []string) {
+	for _, n := range in {
+		if !gen.ConstrainedJSON[protoreflect.FullName(n)] {
+			out = append(out, n)
+		}
+	}
+	return
+}
 
 func explicitDefaults(md protoreflect.MessageDescriptor, v *model.Msg) int {
 	n := 0
